@@ -14,6 +14,7 @@ MORE_NAMES = ["fetch", "merge", "status", "branch", "clone", "init", "tag9", "gr
 ALIASES = ["srv", "ad2", "rmt", "psh", "ls1", "cf9", "dpl", "zz1", "yy2", "ww3"]
 LONGS = ["foo", "bar", "baz-x", "opt1", "qux", "num", "k2", "mode", "level", "dry-run"]
 SHORTS = list("fbxokFBXze")
+TAG_ARGNAMES = ["info", "b"]
 ARGNAMES = ["a1", "a2", "src", "dst", "file-name", "rest", "host", "port"]
 
 DEFAULT_APP_OPTIONS = [
@@ -46,16 +47,18 @@ def is_hidden(c):
     return c["kind"] in ("hidden", "default-hidden")
 
 
-DESCS = [None, "short text", "forty words " + " ".join("word%d" % i for i in range(38)), "first line\nsecond line"]
+DESCS = [None, "short text", "forty words " + " ".join("word%d" % i for i in range(38)), "first line\nsecond line",
+         'template "{name}-{0}.txt", {} braces, 100% and %s signs, a back\\slash']
 
 
 @st.composite
 def tree_st(draw, max_depth=3, max_fanout=3, typed=False, descriptions=False, min_top=1, unique_names=False,
-            collide=False, lenient=False):
+            collide=False, lenient=False, tag_names=False):
     used_as_option = set()
     longs = list(draw(st.permutations(LONGS)))
     shorts = list(draw(st.permutations(SHORTS)))
-    argnames = list(draw(st.permutations(ARGNAMES)))
+    # tag_names: also argument names that are legal and happen to equal a registered style tag
+    argnames = list(draw(st.permutations(ARGNAMES + (TAG_ARGNAMES if tag_names else []))))
 
     def elem_desc():
         return draw(st.sampled_from(DESCS)) if descriptions else "d"
